@@ -376,6 +376,47 @@ def hChainAt : Handler := handler fun a => match a with
     pure (.list ((List.range c).map fun j => SExp.ofOptNat (Dask.FuseSlice.chainAt n x y j)))
   | _ => none
 
+open Dask.FuseSlice in
+def toIx? : SExp → Option Ix
+  | .sym "full" => some .full
+  | .sym "newaxis" => some .newaxis
+  | .list [.sym "i", n] => do pure (.int (← n.toNat?))
+  | .list [.sym "s", a, b, c] => do pure (.sl (← toSl? (.list [a, b, c])))
+  | _ => none
+
+open Dask.FuseSlice in
+def ofIx : Ix → SExp
+  | .full => .sym "full"
+  | .newaxis => .sym "newaxis"
+  | .int n => .list [.sym "i", SExp.ofNat n]
+  | .sl s => .list [.sym "s", SExp.ofNat s.start, SExp.ofOptNat s.stop, SExp.ofNat s.step]
+
+def ofOptNats : Option (List Nat) → SExp
+  | none => .sym "none"
+  | some l => SExp.ofNats l
+
+/-- `(fusetuple dims (a…) (b…) (coord…))` ↦ `(ok (r…) pairsOK stepsPos shape(x[a]) shape(x[r]) (applyB dims r c …)
+    (chain c …))` | `(notimpl)` | `(indexerr)`; `chain c` is `applyB shape(x[a]) b c >>= applyB dims a` -/
+def hFuseTuple : Handler := handler fun args => match args with
+  | [dims, a, b, cs] => do
+    let dims ← dims.toNats?
+    let a ← (← a.toList?).mapM toIx?
+    let b ← (← b.toList?).mapM toIx?
+    let cs ← (← cs.toList?).mapM SExp.toNats?
+    match Dask.FuseSlice.fuseTuple a b with
+    | .notImplemented => pure (.list [.sym "notimpl"])
+    | .indexError => pure (.list [.sym "indexerr"])
+    | .ok r =>
+      let sh := Dask.FuseSlice.shapeIx dims a
+      pure (.list [.sym "ok", .list (r.map ofIx), SExp.ofBool (Dask.FuseSlice.pairsOK dims a b),
+        SExp.ofBool (Dask.FuseSlice.stepsPos a),
+        ofOptNats sh, ofOptNats (Dask.FuseSlice.shapeIx dims r),
+        .list (cs.map fun c => ofOptNats (Dask.FuseSlice.applyB dims r c)),
+        .list (cs.map fun c => ofOptNats (match sh with
+          | none => none
+          | some s => (Dask.FuseSlice.applyB s b c).bind (Dask.FuseSlice.applyB dims a)))])
+  | _ => none
+
 /-! C25: pipeline chunk metadata -/
 open Dask.Meta in
 partial def toProg? : SExp → Option Prog
@@ -410,7 +451,7 @@ end HlgDrv
 
 def table : List (String × Handler) := [
   ("metachunks", HlgDrv.hMetaChunks), ("metablocks", HlgDrv.hMetaBlocks), ("rewrite", HlgDrv.hRewrite),
-  ("fuseslice", HlgDrv.hFuseSlice), ("chainat", HlgDrv.hChainAt),
+  ("fuseslice", HlgDrv.hFuseSlice), ("chainat", HlgDrv.hChainAt), ("fusetuple", HlgDrv.hFuseTuple),
   ("mbplan", HlgDrv.hMbPlan), ("blockinfo", HlgDrv.hBlockInfo), ("loopdims", HlgDrv.hLoopDims),
   ("alignfalse", HlgDrv.hAlignFalse),
   ("bshapes", HlgDrv.hBShapes), ("cbd", HlgDrv.hCbd), ("unify", HlgDrv.hUnify), ("argpos", HlgDrv.hArgPos),
